@@ -73,6 +73,27 @@ Definition eval_seq (one : A) (l : list A) : A := fold_left (fun acc c => mul c 
 Definition eval_opt (one : A) (l : list A) : option A :=
   match l with [] => None | _ => Some (eval_seq one l) end.
 
+(* ---- the dictionary the code keeps for step-keyed controls ---------------------------------
+   Control.add_single(int key): first control for a key is stored as it is, every further one is
+   composed as  new @ stored ; get_controls multiplies the stored product onto the identity. *)
+Fixpoint assoc_add (z : Z) (c : A) (l : list (Z * A)) : list (Z * A) :=
+  match l with
+  | [] => [(z, c)]
+  | (k, v) :: t => if Z.eqb k z then (k, mul c v) :: t else (k, v) :: assoc_add z c t
+  end.
+Fixpoint assoc_get (z : Z) (l : list (Z * A)) : option A :=
+  match l with
+  | [] => None
+  | (k, v) :: t => if Z.eqb k z then Some v else assoc_get z t
+  end.
+Definition step_store (hist : list add) (post : bool) : list (Z * A) :=
+  fold_left (fun st a => match a_key a with
+                         | KInt z => if side post a then assoc_add z (a_op a) st else st
+                         | KFloat _ => st
+                         end) hist [].
+Definition dict_step_control (one : A) (hist : list add) (post : bool) (step : Z) : option A :=
+  option_map (fun v => mul v one) (assoc_get step (step_store hist post)).
+
 (* ---- ChainControl ------------------------------------------------------ *)
 Record cadd := { c_site : nat; c_step : Z; c_post : bool; c_op : A }.
 
